@@ -96,6 +96,9 @@ def check_case(ctx, case):
     from csep.core.forecasts import CatalogForecast
     import csep
     S = G.Setup(case["setup"])
+    VB = bool(case.get("verbose"))     # progress output on: same results (stdout of a shard goes to devnull)
+    if VB:
+        ctx.count("cases_with_verbose_on")
     cats = [[tuple(e) for e in c] for c in case["cats"]]
     obs = [tuple(e) for e in case["obs"]]
     J = len(cats)
@@ -135,7 +138,7 @@ def check_case(ctx, case):
         results = []
         all_results = []
         # ---------------- number test
-        o = call(CE.number_test, forecast(), observed(), verbose=False)
+        o = call(CE.number_test, forecast(), observed(), verbose=VB)
         if not o.ok:
             ctx.unexpected(o, "number_test")
         else:
@@ -165,7 +168,7 @@ def check_case(ctx, case):
         under = any(ws_obs[k] > 0 and sp[k] == 0 for k in range(S.nc))
         kept = ws_obs * (sp > 0)
         for name, fn, stat, skip_empty in (("S", CE.spatial_test, s_stat, True), ("PL", CE.pseudolikelihood_test, pl_stat, False)):
-            o = call(fn, forecast(), observed(), verbose=False)
+            o = call(fn, forecast(), observed(), verbose=VB)
             if not o.ok:
                 ctx.unexpected(o, name + "_test")
                 continue
@@ -211,7 +214,7 @@ def check_case(ctx, case):
             return math.fsum((math.log10(union[k] / J * (n_obs / (nu / J)) + 1) - math.log10(hist[k] * (n_obs / n_hist) + 1)) ** 2 for k in range(S.nm))
 
         for name, fn, kw in (("M", CE.magnitude_test, {}), ("resampledM", CE.resampled_magnitude_test, {"seed": case["seed"]}), ("MLL", CE.MLL_magnitude_test, {"seed": case["seed"]})):
-            o = call(fn, forecast(), observed(), verbose=False, **kw)
+            o = call(fn, forecast(), observed(), verbose=VB, **kw)
             if not o.ok:
                 if name != "M" and S.nm < 2:
                     ctx.count("skipped:single_magnitude_bin_resampled_tests")
@@ -316,7 +319,7 @@ def cases(draw):
     else:
         obs = mk(sampled, draw(st.integers(1, 6)))
     return {"setup": setup, "cats": cats, "obs": obs, "source": draw(st.sampled_from(["list", "file_store", "file_nostore"])),
-            "seed": draw(st.sampled_from([0, 1, 12345])), "obs_class": cls}
+            "seed": draw(st.sampled_from([0, 1, 12345])), "obs_class": cls, "verbose": draw(st.integers(0, 3)) == 0}
 
 
 def run(ctx):
